@@ -81,7 +81,9 @@ def main(run):
         "run additionally purely central-spring models with dyadic geometry on fcc / rock salt / bcc / sc (non-zero blocks whose "
         "nine elements cancel exactly) and C = Py on arrays with exactly zero, single-element, antisymmetric and "
         "element-sum-cancelling blocks; and many q-points in one run_qpoints call (1, 2, small primes, a prime in 4001..6000 for "
-        "an 8-atom cell, a prime in 150..300 for a 96-atom cell; with/without eigenvectors and dynamical matrices): every row. "
+        "an 8-atom cell, a prime in 150..300 for a 96-atom cell; with/without eigenvectors and dynamical matrices): every row; "
+        "and 3 relabelled descriptions of a crystal per run (gen.relabelled_cell, at least one left-handed): the oracle in "
+        "the relabelled description and the spectrum at qmap(q) against the original description. "
         "Non-trivial = the oracle matrix is non-zero, and for the short-range clause the cutoff reaches at least the "
         "nearest neighbours; for the commensurate clause the cutoff exceeds half the shortest supercell vector.")
     run.cov["trusted_base"] = [
@@ -616,6 +618,85 @@ def main(run):
             if not ok:
                 run.broke("correspondence", "row %d of a %d-q-point run_qpoints call differs from the model by %.3g (scale %.3g)"
                           % (inf["row"], inf["n_qpoints"], d, scale), inf)
+
+    # ------------------------------------------------------------------ D. description invariance: the same crystal
+    # with relabelled lattice vectors (gen.relabelled_cell: left-handed, sheared, permuted).  The property's own oracle
+    # (lattice Fourier sum built from the relabelled primitive cell) for C and Py, full and compact, dense or sparse
+    # svecs, and the spectrum at qmap(q) against the original description's spectrum at q (the same physical quantity).
+    from phonopy.structure.cells import get_primitive_matrix_by_centring
+
+    for mname in U.relabel_picks(rng, 4 if thorough else 3):
+        for _try in range(20):
+            name, dims = U.RELABEL_CASES[rng.randrange(len(U.RELABEL_CASES))]
+            cell, cen = U.get_cell(name)
+            smat = np.diag(dims)
+            ph0 = Phonopy(cell, supercell_matrix=smat, primitive_matrix=get_primitive_matrix_by_centring(cen), log_level=0)
+            minv = gen.min_lattice_vector(ph0.supercell.cell)
+            nn = U.nn_distance(cell)
+            clause = rng.choice(["short", "short", "long"])
+            if clause == "short":
+                cutoff = minv * rng.uniform(0.42, 0.495)
+                if cutoff < nn * 1.001:
+                    continue
+            else:
+                cutoff = rng.uniform(max(nn * 1.01, 0.55 * minv), 1.2 * minv)
+                if len(ph0.supercell) ** 2 * (2 * U.images_needed(ph0.supercell.cell, cutoff) + 1) ** 3 > 1.5e6:
+                    continue
+            break
+        else:
+            continue
+        dense = rng.random() < 0.6
+        kfun, kdesc = U.make_kfun(rng)
+        ph0.force_constants = gen.pair_fc(ph0.supercell, cutoff, kfun=kfun, images=U.images_needed(ph0.supercell.cell, cutoff))
+        if clause == "short":
+            qs = U.qpoints(rng, ph0, n_random=2, n_comm=1, n_zb=1, n_out=1)
+        else:
+            qs = [x for x in U.qpoints(rng, ph0, n_random=0, n_comm=3, n_zb=1, n_out=0) if U.is_commensurate(ph0, x[1])]
+        q0 = np.array([x[1] for x in qs])
+        ph0.run_qpoints(q0)
+        f0 = np.array(ph0.get_qpoints_dict()["frequencies"])
+        ph2, qmap = U.relabelled_phonopy(cell, cen, smat, mname, dense=dense)
+        sc2, pc2 = ph2.supercell, ph2.primitive
+        fc2 = gen.pair_fc(sc2, cutoff, kfun=kfun, images=U.images_needed(sc2.cell, cutoff))
+        fcc2 = full_fc_to_compact_fc(pc2, fc2)
+        q2 = np.array([qmap(x) for x in q0])
+        D2 = U.fourier_dynmat(pc2.cell, pc2.scaled_positions, pc2.numbers, pc2.masses, kfun, cutoff, q2)
+        floor = float(np.abs(fc2).max()) / float(min(pc2.masses))
+        info = dict(cell=name, smat=smat.tolist(), centring=cen, relabelling=mname, M=gen.UNIMODULAR[mname], volume_sign=float(np.sign(ph2.unitcell.volume)),
+                    dense_svecs=dense, clause=clause, cutoff=float(cutoff), kfun=kdesc, n_satom=len(sc2), n_patom=len(pc2))
+        run.sample(dict(kind="relabelled", **info), limit=10)
+        for layout, arr in (("full", fc2), ("compact", fcc2)):
+            ph2.force_constants = arr.copy()
+            dm = ph2.dynamical_matrix
+            ph2.run_qpoints(q2, with_dynamical_matrices=True)
+            qd = ph2.get_qpoints_dict()
+            for n, (kind, qq) in enumerate(qs):
+                for lang in ("C", "Py"):
+                    dm.run(q2[n], lang=lang)
+                    ok, d, scale = _close(dm.dynamical_matrix, D2[n], floor)
+                    run.count("relabelled D %s/%s/%s" % (mname, layout, lang), section="oracle")
+                    if not ok:
+                        run.violation("DynamicalMatrix.run", "relabelled/%s-range/%s/%s" % (clause, layout, lang),
+                                      "relabelled description (%s): dynamical matrix differs from the lattice Fourier sum by %.3g (scale %.3g)" % (mname, d, scale),
+                                      dict(info, q_original=list(map(float, qq)), q=list(map(float, q2[n])), layout=layout, lang=lang))
+                f2 = np.array(qd["frequencies"][n])
+                want = np.linalg.eigvalsh((D2[n] + D2[n].conj().T) / 2)
+                sc_ = max(float(np.abs(want).max()), floor)
+                l2 = np.sign(f2) * (f2 / factor) ** 2
+                l0 = np.sign(f0[n]) * (f0[n] / factor) ** 2
+                if np.abs(l2 - want).max() > TOL_EIG * sc_:
+                    run.violation("Phonopy.run_qpoints", "relabelled/%s-range/%s/frequencies" % (clause, layout),
+                                  "relabelled description (%s): frequencies differ from those of the lattice Fourier sum (eigenvalue diff %.3g)" % (mname, np.abs(l2 - want).max()),
+                                  dict(info, q=list(map(float, q2[n])), layout=layout))
+                if np.abs(l2 - l0).max() > TOL_EIG * sc_:
+                    run.violation("Phonopy.run_qpoints", "description-invariance/%s-range/%s" % (clause, layout),
+                                  "spectrum at qmap(q) in the relabelled description (%s) differs from the spectrum at q in the original one (eigenvalue diff %.3g, scale %.3g)"
+                                  % (mname, np.abs(l2 - l0).max(), sc_), dict(info, q_original=list(map(float, qq)), q=list(map(float, q2[n])), layout=layout))
+                run.count("description invariance %s" % mname, section="oracle")
+                if layout == "full":
+                    run.case(("relabel", name, dims, mname, dense, clause, float(cutoff), tuple(map(float, qq))),
+                             nontrivial=float(np.abs(D2[n]).max()) > 0 and kind != "gamma")
+        run.count("relabelled descriptions: %s (det %+d)" % (mname, int(round(np.linalg.det(np.array(gen.UNIMODULAR[mname]))))))
 
     # frequency formula: model `frequency` (sqrt values as used by the code) vs QpointsPhonon
     if freq_lines:
